@@ -231,6 +231,42 @@ def check(ctx: Ctx) -> list[RuleResult]:
         r5.fail("opentherm:parity-shape", dec.loc(), f"the parity bit is no longer set by the builder iff parity(...) (ok={ok_b}) / tested by the decoder over the low 31 bits (ok={ok_d})")
     out.append(r5)
 
+    # ---- R6 ---------------------------------------------------------------------------
+    # Arguments are validated in their normalised form: a constructor that re-binds a parameter from itself (int -> 2-hex string,
+    # name -> code, None -> default, ...) must not test that parameter in a CommandInvalid guard *before* the re-binding, else the
+    # guard only recognises one spelling of the value and an out-of-domain call given in another spelling builds a frame.
+    r6 = RuleResult("R6", "arguments are validated after they are normalised", "no CommandInvalid guard reads a parameter ahead of the statement that re-binds it from itself", min_instances=5)
+    for name, m in sorted(cmd_cls.methods.items()):
+        if "classmethod" not in m.decorators:
+            continue
+        params = {a.arg for a in m.node.args.args + m.node.args.kwonlyargs} - {"cls"}
+        body = m.node.body
+        norms: dict[str, list[int]] = {}  # parameter -> indexes of top-level statements that re-bind it from itself
+        for i, st in enumerate(body):
+            for a in ast.walk(st):
+                if isinstance(a, ast.Assign) and len(a.targets) == 1 and isinstance(a.targets[0], ast.Name) and a.targets[0].id in params:
+                    pn = a.targets[0].id
+                    if any(isinstance(x, ast.Name) and x.id == pn for x in ast.walk(a.value)):
+                        norms.setdefault(pn, []).append(i)
+        for pn, idxs in norms.items():
+            last = max(idxs)
+            r6.instances += 1
+            r6.nontrivial += 1
+            early = []
+            for i, st in enumerate(body[:last]):
+                for g in ast.walk(st):
+                    if isinstance(g, ast.If) and any(isinstance(b, ast.Raise) and "CommandInvalid" in norm(b) for b in g.body) and any(isinstance(x, ast.Name) and x.id == pn for x in ast.walk(g.test)):
+                        # a test of the *raw* spelling that the normalisation itself distinguishes (`isinstance(p, int)`, `p is None`) is fine
+                        atoms = [x for x in ast.walk(g.test) if isinstance(x, ast.Compare) and any(isinstance(y, ast.Name) and y.id == pn for y in ast.walk(x))]
+                        if atoms and all(len(x.ops) == 1 and isinstance(x.ops[0], (ast.Is, ast.IsNot)) for x in atoms):
+                            continue
+                        early.append(g)
+            if early:
+                r6.fail(f"Command.{name}:{pn}:guard-before-normalisation", m.loc(early[0]), f"Command.{name} tests `{pn}` in a CommandInvalid guard (`{norm(early[0].test)[:70]}`) before `{pn}` is normalised (`{norm(body[last])[:60]}`): the guard misses the other spellings the normalisation accepts, so an out-of-domain call still builds a frame")
+            else:
+                r6.ok({"constructor": name, "parameter": pn, "normalised_at_statement": last})
+    out.append(r6)
+
     if ctx.tier == "thorough" or True:
         from .c03_shapes import shape_rule
 
